@@ -2,12 +2,15 @@ package main
 
 import (
 	"bytes"
+	"context"
 	"crypto/rand"
 	"crypto/tls"
 	"crypto/x509"
 	"crypto/x509/pkix"
 	"fmt"
+	"io"
 	"math/big"
+	"path/filepath"
 	"time"
 
 	"github.com/ansible/receptor/pkg/netceptor"
@@ -132,4 +135,196 @@ func (env *c09Env) verifierAging() {
 		}
 		break
 	}
+}
+
+// layer 1d: one long-lived node hands out client configurations for the SAME profile and the SAME
+// expected name in both name modes. Node ids default to host names, so a daemon asks for (profile P,
+// "nodeb") once as the DNS name of a backend peer and once as the node id of a mesh stream (work submit,
+// control connect); whatever was asked before, the configuration returned for a mode must verify the
+// way that mode demands. Every returned configuration is used for real handshakes against servers
+// whose certificates are right for one mode only.
+type c09MixCert struct {
+	class string
+	cert  *c09Cert
+}
+
+// mixCert issues a trusted, valid server certificate carrying exactly the given DNS names and node ids.
+func (env *c09Env) mixCert(class, expected string, dns, ids []string, idx int) *c09Cert {
+	ca := env.pki.cas["caS"]
+	c := &c09Cert{Attr: c09Attr{"caS", "valid", "both", class}, Expected: expected, IDs: ids, DNS: dns, Key: env.pki.leafKeys[idx%2], IssuerCA: ca}
+	var entries []sanEntry
+	for _, d := range dns {
+		entries = append(entries, sanDNS(d))
+	}
+	for _, id := range ids {
+		entries = append(entries, sanID(id))
+	}
+	nb, na := env.pki.window("valid")
+	tpl := &x509.Certificate{SerialNumber: big.NewInt(env.pki.serial.Add(1)), Subject: pkix.Name{CommonName: "c09 mode mixing leaf"},
+		NotBefore: nb, NotAfter: na, KeyUsage: x509.KeyUsageDigitalSignature | x509.KeyUsageKeyEncipherment,
+		ExtKeyUsage:     []x509.ExtKeyUsage{x509.ExtKeyUsageClientAuth, x509.ExtKeyUsageServerAuth},
+		ExtraExtensions: []pkix.Extension{{Id: sanOID, Value: derSAN(entries)}}}
+	der, err := x509.CreateCertificate(rand.Reader, tpl, ca.cert, &c.Key.PublicKey, ca.key)
+	if err != nil {
+		panic(err)
+	}
+	if c.Cert, err = x509.ParseCertificate(der); err != nil {
+		panic(err)
+	}
+	c.Chain = append([][]byte{der}, ca.extra...)
+	return c
+}
+
+func (env *c09Env) modeMixing() {
+	run := env.run
+	c09Write("caS.pem", env.pki.cas["caS"].pem())
+	newNode := func(id string) *netceptor.Netceptor {
+		nc := netceptor.New(context.Background(), id)
+		nc.Logger.SetOutput(io.Discard)
+		return nc
+	}
+	// a profile is configured ONCE per node, the way the daemon does at start-up
+	setProfile := func(nc *netceptor.Netceptor, profile string, v13 bool) error {
+		tc := netceptor.TLSClientConfig{Name: profile, RootCAs: filepath.Join(c09Dir(), "caS.pem"), SkipReceptorNamesCheck: true, MinTLS13: v13}
+		cfg, fp, err := tc.PrepareTLSClientConfig(nc)
+		if err != nil {
+			return err
+		}
+		return nc.SetClientTLSConfig(profile, cfg, fp)
+	}
+	long := newNode(fmt.Sprintf("c09-mix-node-%d", run.Seed))
+	defer long.Shutdown()
+	orders := []string{"dns-first", "receptor-first"}
+	for i, order := range orders {
+		if err := setProfile(long, "mix-"+order, i%2 == 1); err != nil {
+			run.Inconclusive("C09 mode mixing: the client profile could not be configured: " + err.Error())
+			return
+		}
+	}
+	names := []string{env.e, env.o1, fmt.Sprintf("nodeb%d", run.Seed)}
+	if !run.Quick() {
+		names = append(names, env.o2, fmt.Sprintf("c09-host-%d.mesh.example", run.Seed), fmt.Sprintf("n%d", run.Seed))
+	}
+	rounds := run.Pick(3, 10) // alternations per (profile, name)
+	other := "elsewhere.c09.example"
+	// one decision: the configuration `cfg` (asked for `name` in `mode`) against a server presenting mc
+	decide := func(cfg *tls.Config, mc c09MixCert, tls13 bool) (accepted, undecided bool, detail string) {
+		maxV := uint16(tls.VersionTLS12)
+		if tls13 {
+			maxV = tls.VersionTLS13
+		}
+		scfg := &tls.Config{Certificates: []tls.Certificate{mc.cert.tlsCert()}, SessionTicketsDisabled: true, MinVersion: tls.VersionTLS12, MaxVersion: maxV}
+		if cfg.MinVersion == tls.VersionTLS13 {
+			scfg.MaxVersion = tls.VersionTLS13
+		}
+		cerr, serr, to := pipeHandshake(cfg, scfg)
+		return cerr == nil, to, fmt.Sprintf("client: %v; server: %v", cerr, serr)
+	}
+	calls, handshakes := 0, 0
+	reported := map[string]int{}
+	for ni, name := range names {
+		certs := []c09MixCert{
+			{"both-names", env.mixCert("both", name, []string{name}, []string{name}, 0)},
+			{"dns-name-without-node-id", env.mixCert("dns-only", name, []string{name}, nil, 1)},
+			{"dns-name-with-other-node-id", env.mixCert("dns+other-id", name, []string{name}, []string{other}, 2)},
+			{"node-id-without-dns-name", env.mixCert("id-expected", name, nil, []string{name}, 3)},
+			{"node-id-with-other-dns-name", env.mixCert("id+other-dns", name, []string{other}, []string{name}, 4)},
+			{"neither-name", env.mixCert("other", name, []string{other}, []string{other}, 5)},
+		}
+		// the harness's own expectation, from what it put into the certificate
+		allowed := func(mode string, mc c09MixCert) bool { return mc.cert.conds("server", mode, true, name, nil).all() }
+		// reference: what an instance that was only ever asked once says (a fresh node per mode)
+		fresh := map[string]map[string]bool{}
+		for _, mode := range []string{"dns", "receptor"} {
+			fresh[mode] = map[string]bool{}
+			nc := newNode(fmt.Sprintf("c09-mix-fresh-%d-%d-%s", run.Seed, ni, mode))
+			if err := setProfile(nc, "mix", false); err != nil {
+				nc.Shutdown()
+				run.Inconclusive("C09 mode mixing: the client profile could not be configured: " + err.Error())
+				return
+			}
+			cfg, err := nc.GetClientTLSConfig("mix", name, c09Mode(mode))
+			if err != nil || cfg == nil {
+				nc.Shutdown()
+				run.Inconclusive(fmt.Sprintf("C09 mode mixing: a fresh node returns no client configuration: %v", err))
+				return
+			}
+			for ci, mc := range certs {
+				acc, undecided, detail := decide(cfg, mc, ci%2 == 0)
+				run.Eval(1)
+				handshakes++
+				if undecided {
+					run.Inconclusive("C09 mode mixing: handshake watchdog: " + detail)
+					continue
+				}
+				fresh[mode][mc.class] = acc
+				w := map[string]any{"expected_name": name, "requested_mode": mode, "certificate_dns_names": mc.cert.DNS, "certificate_node_ids": mc.cert.IDs, "observed": detail}
+				switch {
+				case acc && !allowed(mode, mc):
+					run.Violation("reuse:mode-mixing:single-request:"+mc.class, fmt.Sprintf("a node asked ONCE for a client configuration (expected %s name %q) completed a handshake with a server whose trusted certificate has DNS names %v and node ids %v", mode, name, mc.cert.DNS, mc.cert.IDs), w)
+				case !acc && mc.class == "both-names":
+					run.Violation("control-refused:reuse:mode-mixing:single-request", fmt.Sprintf("a node asked once for a client configuration (expected %s name %q) refused a clean certificate carrying that name both as DNS name and as node id: %s", mode, name, detail), w)
+				}
+			}
+			nc.Shutdown()
+		}
+		for _, order := range orders {
+			profile := "mix-" + order
+			seq := []string{"dns", "receptor"}
+			if order == "receptor-first" {
+				seq = []string{"receptor", "dns"}
+			}
+			var history []string
+			for call := 0; call < 2*rounds; call++ {
+				mode := seq[call%2]
+				cfg, err := long.GetClientTLSConfig(profile, name, c09Mode(mode))
+				calls++
+				history = append(history, mode)
+				if err != nil || cfg == nil {
+					run.Eval(1)
+					run.Violation("control-refused:reuse:mode-mixing:"+order, fmt.Sprintf("request %d (%s mode) for profile %q and name %q returned no configuration: %v", call+1, mode, profile, name, err), nil)
+					continue
+				}
+				for ci, mc := range certs {
+					acc, undecided, detail := decide(cfg, mc, (ci+call)%2 == 0)
+					run.Eval(1)
+					handshakes++
+					if undecided {
+						run.Inconclusive("C09 mode mixing: handshake watchdog: " + detail)
+						continue
+					}
+					w := map[string]any{"profile": profile, "expected_name": name, "requests_so_far_for_this_profile_and_name": append([]string{}, history...), "requested_mode": mode,
+						"certificate_dns_names": mc.cert.DNS, "certificate_node_ids": mc.cert.IDs, "certificate_class": mc.class,
+						"a_node_asked_only_once_in_this_mode_accepts_it": fresh[mode][mc.class], "observed": detail}
+					switch {
+					case acc && !allowed(mode, mc):
+						run.Count("mode_mixing_accepted_name_condition_false", 1)
+						if reported[order+mc.class]++; reported[order+mc.class] > 2 {
+							break // one witness per name is enough
+						}
+						run.Violation("reuse:mode-mixing:"+order+":"+mc.class,
+							fmt.Sprintf("one node was asked for client configurations of profile %q and name %q in the modes %v; the configuration returned by request %d (%s mode) completed a handshake with a server whose trusted certificate has DNS names %v and node ids %v - it does not carry %q as %s (a node asked only in %s mode: accepted=%v)",
+								profile, name, history, call+1, mode, mc.cert.DNS, mc.cert.IDs, name, map[string]string{"dns": "DNS name", "receptor": "receptor node id"}[mode], mode, fresh[mode][mc.class]), w)
+					case !acc && mc.class == "both-names":
+						run.Violation("control-refused:reuse:mode-mixing:"+order,
+							fmt.Sprintf("one node was asked for client configurations of profile %q and name %q in the modes %v; the configuration returned by request %d (%s mode) refused a clean certificate carrying the name both as DNS name and as node id: %s", profile, name, history, call+1, mode, detail), w)
+					case acc:
+						run.Count("mode_mixing_accepted_name_condition_true", 1)
+					case allowed(mode, mc) && fresh[mode][mc.class]:
+						run.Count("mode_mixing_refused_what_a_fresh_node_accepts(stricter, tolerated)", 1)
+					default:
+						run.Count("mode_mixing_refused_name_condition_false", 1)
+					}
+					if !allowed(mode, mc) && call > 0 {
+						// non-trivial: a certificate wrong for THIS mode, judged after the pair had been requested in the other mode
+						run.Distinct(fmt.Sprintf("mode-mixing|%s|%s|%s|name%d", order, mode, mc.class, ni))
+					}
+				}
+			}
+		}
+	}
+	run.Count("mode_mixing_config_requests_on_one_node", int64(calls))
+	run.Count("mode_mixing_handshakes", int64(handshakes))
+	run.Sample(map[string]any{"layer": "reuse:mode-mixing", "names": names, "orders": orders, "alternations_per_profile_and_name": rounds,
+		"certificate_classes": []string{"both-names", "dns-name-without-node-id", "dns-name-with-other-node-id", "node-id-without-dns-name", "node-id-with-other-dns-name", "neither-name"}})
 }
